@@ -6,7 +6,10 @@
    (gen/GenFresh.v); model/Fresh.v composes them in the order of pop_next_job / execute_job /
    DirectorHandler.amend_step. *)
 From Coq Require Import List NArith Bool.
-From SV Require Import lib.StampMap gen.GenFresh model.Fresh proofs.FreshProofs.
+From SV Require Import lib.StampMap.
+From SV Require Import gen.GenFresh.
+From SV Require Import model.Fresh.
+From SV Require Import proofs.FreshProofs.
 Import ListNotations.
 Open Scope N_scope.
 
@@ -108,6 +111,90 @@ Theorem C03_changed_input_before_start_fails_and_drains :
     let '(w', r) := do_try w t in
     r = RTry false /\ c_state w' = SS_FAILED /\ draining w' = true /\ c_run w' = None.
 Proof. exact changed_input_before_start_fails_and_drains. Qed.
+
+(* With clock readings that never decrease, a verdict "not unfresh" (ran_concurrently False) means
+   that, in the order of events, the consumer's current start does not precede the producer's
+   last successful stop. *)
+Theorem C03_fresh_verdict_sound :
+  forall (evs : list bev) (p c : N),
+    mono 0 evs = true -> ran_conc (brun evs) p c = false -> ran_order evs p c = false.
+Proof. exact fresh_verdict_sound. Qed.
+
+(* ---------------------------------------------------------------------------------------- *)
+(* A step that ends SUCCEEDED.                                                               *)
+(* ---------------------------------------------------------------------------------------- *)
+
+(* FULL STATEMENT (not a theorem: refuted below).  If the command of c starts in w0 and c is
+   recorded SUCCEEDED after the window `mid`, then every input that counts at the end (declared or
+   amended, attached, BUILT or CONFIRMED) had, at every moment of the window, exactly the content,
+   mode and size recorded for it. *)
+Definition C03_full : Prop :=
+  forall w0 t mid t' ok,
+    snd (do_try w0 t) = RTry true -> forallb in_window mid = true ->
+    let w1 := fst (do_try w0 t) in
+    let w2 := run mid w1 in
+    let w3 := fst (step w2 (EEnd t' ok)) in
+    c_state w3 = SS_SUCCEEDED ->
+    forall f, In f (considered w2) ->
+      forall m1, prefix_of m1 mid -> disk (run m1 w1) f = f_hash (files w3 f).
+
+(* What IS proved (partial): (A) at the end every counted input is on disk with its recorded hash
+   and completion leaves the rows untouched; (B) at the start every declared input was attached,
+   BUILT or CONFIRMED and on disk with its recorded hash; (C) every accepted amend request of the
+   window reported nothing unavailable or unfresh and answered carry_on = True; (D) for a declared
+   input, under db_stable (the recorded hash is the same at both ends of the window) and no_aba
+   (no writer restores the exact content, size and mode inside the window), the content equals
+   the recorded hash at every moment of the window.
+   Missing for the full statement: db_stable is NOT enforced by the code (second refutation:
+   a defect), no_aba cannot be observed by end-point hashing (first refutation: an assumption),
+   and for amended inputs the part of the window before the amend request is covered only through
+   the freshness verdict (C03_fresh_verdict_sound), not through a hash taken at the start. *)
+Theorem C03_succeeded_inputs_final_partial :
+  forall (w0 : world) (t : N) (mid : list ev) (t' : N) (ok : bool),
+    snd (do_try w0 t) = RTry true ->
+    forallb in_window mid = true ->
+    let w1 := fst (do_try w0 t) in
+    let w2 := run mid w1 in
+    let w3 := fst (step w2 (EEnd t' ok)) in
+    c_state w3 = SS_SUCCEEDED ->
+    (forall f, In f (considered w2) -> disk w2 f = f_hash (files w2 f) /\ files w3 f = files w2 f) /\
+    (forall f, In f (c_init w0) ->
+       f_detached (files w0 f) = false /\
+       (f_state (files w0 f) = FS_BUILT \/ f_state (files w0 f) = FS_CONFIRMED) /\
+       disk w1 f = f_hash (files w0 f)) /\
+    (forall pre ps post unav unfr carry,
+       mid = pre ++ EAmend ps :: post ->
+       snd (step (run pre w1) (EAmend ps)) = RAmend false unav unfr carry ->
+       unav = [] /\ unfr = [] /\ carry = true) /\
+    (forall f, In f (c_init w0) -> In f (considered w2) -> db_stable w1 mid f -> no_aba w1 mid f ->
+       forall m1, prefix_of m1 mid -> disk (run m1 w1) f = f_hash (files w3 f)).
+Proof. exact succeeded_inputs_final_partial. Qed.
+
+(* Refutation by A-B-A (db_stable holds): inherent to end-point hashing, an ASSUMPTION. *)
+Theorem C03_full_refuted_by_aba :
+  exists w0 t mid t' ok f m1,
+    snd (do_try w0 t) = RTry true /\ forallb in_window mid = true /\
+    c_state (fst (step (run mid (fst (do_try w0 t))) (EEnd t' ok))) = SS_SUCCEEDED /\
+    In f (considered (run mid (fst (do_try w0 t)))) /\ prefix_of m1 mid /\
+    db_stable (fst (do_try w0 t)) mid f /\
+    disk (run m1 (fst (do_try w0 t))) f <> f_hash (files (fst (step (run mid (fst (do_try w0 t))) (EEnd t' ok))) f).
+Proof. exact inputs_final_full_refuted_by_aba. Qed.
+
+(* Refutation without any restoring write: the recorded hash of a declared input is re-recorded
+   while the command runs (its producer is executed again), the file differs between the two ends
+   of the window, and the step still ends SUCCEEDED.  A DEFECT of the code, replayed on the
+   implementation (findings.d/C03-rerun.json). *)
+Theorem C03_full_refuted_by_producer_rerun :
+  exists w0 t mid t' ok f,
+    snd (do_try w0 t) = RTry true /\ forallb in_window mid = true /\
+    c_state (fst (step (run mid (fst (do_try w0 t))) (EEnd t' ok))) = SS_SUCCEEDED /\
+    In f (c_init w0) /\ In f (considered (run mid (fst (do_try w0 t)))) /\
+    disk (run mid (fst (do_try w0 t))) f <> disk (fst (do_try w0 t)) f /\
+    disk (fst (do_try w0 t)) f <> f_hash (files (fst (step (run mid (fst (do_try w0 t))) (EEnd t' ok))) f).
+Proof. exact inputs_final_full_refuted_by_producer_rerun. Qed.
+
+Theorem C03_full_refuted : ~ C03_full.
+Proof. exact inputs_final_full_refuted. Qed.
 
 (* ---------------------------------------------------------------------------------------- *)
 (* Non-vacuity.                                                                              *)
